@@ -594,44 +594,69 @@ Qed.
 Lemma cap_pos : 0 < cap.
 Proof. rewrite cap_is_2000. lia. Qed.
 
-(* the model, position view: for a non-empty locator *)
-Lemma locate_seg s tip t g locs stop : mc_facts s tip t g -> locs <> [] ->
+Lemma start_height_nil s : start_height s [] = 0.
+Proof.
+  unfold start_height.
+  assert (E: fold_right (fun r m => if isL r && memN (id r) [] then max_opt m (height r) else m) None s = None).
+  { induction s as [|r s IH]; [reflexivity|]. cbn [fold_right]. rewrite IH. cbn. rewrite andb_false_r. reflexivity. }
+  rewrite E. reflexivity.
+Qed.
+
+(* the genesis lookup added by fix 1ef8815 *)
+Definition gen_stop (s : store) (stop : N) : bool :=
+  match by_height_L s 0 with Some g => N.eqb (id g) stop | None => false end.
+
+(* the model, position view *)
+Lemma locate_seg s tip t g locs stop : mc_facts s tip t g ->
   answer (locate s locs stop) =
   let a := anchor s locs in
   let sh0 := if N.eqb stop 0 then a + cap else stop_height s stop in
+  if (sh0 =? 0) && gen_stop s stop then [] else
   let sh := if sh0 =? 0 then a + cap else sh0 in
   if sh <=? a then [] else seg s (a + 1) (Z.to_nat (Z.min (sh - a) cap)).
 Proof.
-  intros F Hne. pose proof (anchor_bounds _ _ _ _ locs F) as Ha. pose proof cap_pos as Hc.
-  unfold locate. destruct locs as [|l0 locs']; [contradiction|]. cbn zeta.
-  rewrite (start_eq_anchor _ _ _ _ _ F). set (a := anchor s (l0 :: locs')) in *.
+  intros F. pose proof (anchor_bounds _ _ _ _ locs F) as Ha. pose proof cap_pos as Hc.
+  unfold locate. fold (gen_stop s stop).
+  replace (match locs with [] => 0 | _ :: _ => start_height s locs end) with (anchor s locs)
+    by (rewrite <- (start_eq_anchor _ _ _ _ locs F); destruct locs; [first [apply start_height_nil | symmetry; apply start_height_nil]| reflexivity]).
+  cbn zeta. set (a := anchor s locs) in *.
   set (sh0 := if N.eqb stop 0 then a + cap else stop_height s stop).
+  destruct ((sh0 =? 0) && gen_stop s stop); [reflexivity|].
   set (sh := if sh0 =? 0 then a + cap else sh0).
   destruct (Z.leb_spec sh a) as [Hle|Hgt]; [reflexivity|]. cbn [answer].
   rewrite (range_L_seg _ _ _ _ (a + 1) _ F ltac:(lia)). f_equal.
   destruct (Z.ltb_spec cap (sh - a)); lia.
 Qed.
 
-(* C13, second half, which headers: apart from the two corner cases the answer is the specification's *)
-Theorem locate_matches_spec s locs stop : Valid s -> locs <> [] -> stop <> genesis_id s ->
+(* C13, second half, which headers: for ALL locators and stop hashes the answer is the specification's *)
+Theorem locate_matches_spec s locs stop : Valid s ->
   answer (locate s locs stop) = spec_locate s locs stop.
 Proof.
-  intros HV Hne Hng. destruct (valid_mc s HV) as (tip & t & g & F).
+  intros HV. destruct (valid_mc s HV) as (tip & t & g & F).
   pose proof (anchor_bounds _ _ _ _ locs F) as Ha. pose proof cap_pos as Hc.
-  rewrite (locate_seg _ _ _ _ _ stop F Hne), (spec_locate_seg _ _ _ _ _ stop F), (stop_height_mc _ _ _ _ stop F).
+  rewrite (locate_seg _ _ _ _ _ stop F), (spec_locate_seg _ _ _ _ _ stop F), (stop_height_mc _ _ _ _ stop F).
   cbn zeta. set (a := anchor s locs) in *.
+  assert (Hg0: gen_stop s stop = N.eqb (id g) stop).
+  { unfold gen_stop. rewrite (by_height_L_nth _ _ _ _ F 0 ltac:(lia)). cbn [Z.to_nat]. rewrite (mf_gen _ _ _ _ F). reflexivity. }
+  assert (Hgin: In g (main_chain s)) by (apply (nth_error_In _ 0); exact (mf_gen _ _ _ _ F)).
   destruct (find (fun r => N.eqb (id r) stop) (main_chain s)) as [x|] eqn:Hf.
   - apply find_some in Hf. destruct Hf as [Hx Hid]. apply N.eqb_eq in Hid.
     pose proof (mc_nth_bounds _ _ _ _ F x Hx) as Hb.
-    assert (Hx0: height x <> 0).
-    { intro E. pose proof (asc_in_nth _ _ (mf_asc _ _ _ _ F) x Hx) as Hn. replace (Z.to_nat (height x - 0)) with Datatypes.O in Hn by lia.
-      rewrite (mf_gen _ _ _ _ F) in Hn. inversion Hn; subst x. apply Hng. rewrite <- Hid. exact (mf_gid _ _ _ _ F). }
     assert (Hs0: stop <> 0%N).
     { rewrite <- Hid. apply (wf_ids_nonzero s (proj1 (mf_inv _ _ _ _ F))). apply (mc_in _ _ _ _ F). exact Hx. }
     replace (N.eqb stop 0) with false by (symmetry; apply N.eqb_neq; exact Hs0).
-    replace (height x =? 0) with false by (symmetry; apply Z.eqb_neq; exact Hx0).
-    destruct (Z.leb_spec (height x) a); [reflexivity|]. f_equal. lia.
-  - replace (if (if N.eqb stop 0 then a + cap else 0) =? 0 then a + cap else if N.eqb stop 0 then a + cap else 0)
+    destruct (Z.eqb_spec (height x) 0) as [E0|E0].
+    + (* the stop hash is the genesis block *)
+      pose proof (asc_in_nth _ _ (mf_asc _ _ _ _ F) x Hx) as Hn.
+      replace (Z.to_nat (height x - 0)) with Datatypes.O in Hn by lia.
+      rewrite (mf_gen _ _ _ _ F) in Hn. inversion Hn; subst x.
+      rewrite Hg0, Hid, N.eqb_refl. cbn [andb].
+      replace (height g <=? a) with true by (symmetry; apply Z.leb_le; lia). reflexivity.
+    + cbn [andb]. destruct (Z.leb_spec (height x) a); [reflexivity|]. f_equal. lia.
+  - assert (Hng: N.eqb (id g) stop = false).
+    { pose proof (find_none _ _ Hf g Hgin) as Hn. exact Hn. }
+    rewrite Hg0, Hng, andb_false_r.
+    replace (if (if N.eqb stop 0 then a + cap else 0) =? 0 then a + cap else if N.eqb stop 0 then a + cap else 0)
       with (a + cap) by (destruct (N.eqb stop 0); [destruct (Z.eqb_spec (a + cap) 0); lia| reflexivity]).
     destruct (Z.leb_spec (a + cap) a); [lia|]. f_equal. lia.
 Qed.
@@ -679,16 +704,17 @@ Theorem locate_safe_thm s locs stop : Valid s ->
   l = seg s (anchor s locs + 1) (length l).
 Proof.
   intros HV. destruct (valid_mc s HV) as (tip & t & g & F). cbn zeta.
-  destruct locs as [|l0 locs'] eqn:El.
-  - cbn. split; [lia|]. split; [exact I|]. split; [intros r []|]. unfold seg. reflexivity.
-  - rewrite <- El. assert (Hne: locs <> []) by (rewrite El; discriminate).
-    pose proof (anchor_bounds _ _ _ _ locs F) as Ha. rewrite (locate_seg _ _ _ _ _ stop F Hne). cbn zeta.
-    match goal with |- context [if ?c then _ else _] => destruct c end.
-    + cbn. split; [lia|]. split; [exact I|]. split; [intros r []|]. unfold seg. reflexivity.
-    + match goal with |- context [seg s ?lo ?n] => destruct (seg_props s tip t g lo n F ltac:(lia)) as (H1 & H2 & H3 & H4) end.
-      split; [lia|]. split; [exact H2|]. split.
-      * intros r Hr. destruct (H4 r Hr) as (A & B & C). repeat split; auto. lia.
-      * unfold seg. symmetry. apply firstn_length_idem.
+  pose proof (anchor_bounds _ _ _ _ locs F) as Ha. rewrite (locate_seg _ _ _ _ _ stop F). cbn zeta.
+  assert (Hnil: (length (@nil row) <= Z.to_nat cap)%nat /\ linked [] /\
+                (forall r, In r [] -> In r s /\ st r = Longest /\ anchor s locs < height r) /\
+                [] = seg s (anchor s locs + 1) (length (@nil row))).
+  { cbn. split; [lia|]. split; [exact I|]. split; [intros r []|]. unfold seg. reflexivity. }
+  match goal with |- context [if ?c then _ else _] => destruct c end; [exact Hnil|].
+  match goal with |- context [if ?c then _ else _] => destruct c end; [exact Hnil|].
+  match goal with |- context [seg s ?lo ?n] => destruct (seg_props s tip t g lo n F ltac:(lia)) as (H1 & H2 & H3 & H4) end.
+  split; [lia|]. split; [exact H2|]. split.
+  - intros r Hr. destruct (H4 r Hr) as (A & B & C). repeat split; auto. lia.
+  - unfold seg. symmetry. apply firstn_length_idem.
 Qed.
 
 (* ---- what the specification means (sanity of the declarative side) ---- *)
@@ -773,33 +799,19 @@ Example locator_example_doubling :
   latest_locator (lin_store 30) = Some [31; 30; 29; 28; 27; 26; 25; 24; 23; 22; 21; 20; 18; 14; 6; 1]%N.
 Proof. split; [apply lin_store_valid; vm_compute; reflexivity| vm_compute; reflexivity]. Qed.
 
-(* stale (3), longest (2) and unknown (99) hashes in the locator, stop = tip *)
+(* stale (3), longest (2) and unknown (99) hashes in the locator, stop = tip; orphan/stale-only locator;
+   stop behind the start; and the two former corner cases (history: before /repo commits 1ef8815 and 744966c the
+   code answered stop = genesis with the following headers and an empty locator with an error - refuted then,
+   repaired now): stop = genesis yields nothing, the empty locator is answered from height 1 *)
 Example locate_example :
-  Valid ex_store /\ [3%N; 2%N; 99%N] <> [] /\ 7%N <> genesis_id ex_store /\
+  Valid ex_store /\
   map id (answer (locate ex_store [3%N; 2%N; 99%N] 7%N)) = [7%N] /\
   map id (answer (locate ex_store [4%N; 5%N] 0%N)) = [2%N; 7%N] /\
-  locate ex_store [7%N] 2%N = LErr EStopLow.
+  locate ex_store [7%N] 2%N = LErr EStopLow /\
+  locate ex_store [1%N] (genesis_id ex_store) = LErr EStopLow /\
+  map id (answer (locate ex_store [] 0%N)) = [2%N; 7%N].
 Proof.
-  split; [exact ex_store_valid|]. split; [discriminate|]. split; [vm_compute; discriminate|].
-  vm_compute. repeat split; reflexivity.
-Qed.
-
-(* ---------------------------------------------------------------- the two corner cases where the code departs *)
-(* stop hash = genesis: "a stop at or below the start yields nothing", the code sends the following headers *)
-Theorem locate_stop_genesis_refuted_thm :
-  exists s locs stop, Valid s /\ locs <> [] /\ stop = genesis_id s /\
-    spec_locate s locs stop = [] /\ map id (answer (locate s locs stop)) = [2%N; 7%N].
-Proof.
-  exists ex_store, [1%N], 1%N. split; [exact ex_store_valid|]. split; [discriminate|].
-  vm_compute. repeat split; reflexivity.
-Qed.
-
-(* empty locator: "from height 1 if none is [on the longest chain]", the code answers with an error / nothing *)
-Theorem locate_empty_locator_refuted_thm :
-  exists s stop, Valid s /\ locate s [] stop = LErr ENoLocators /\ answer (locate s [] stop) = [] /\
-    map id (spec_locate s [] stop) = [2%N; 7%N].
-Proof.
-  exists ex_store, 0%N. split; [exact ex_store_valid|]. vm_compute. repeat split; reflexivity.
+  split; [exact ex_store_valid|]. vm_compute. repeat split; reflexivity.
 Qed.
 
 (* ---------------------------------------------------------------- maxEntries (the uint8 capacity hint) *)
